@@ -125,6 +125,22 @@ fn main() {
     };
     api::install_panic_hook();
     let t0 = Instant::now();
+    // whole-run watchdog: a library call that never returns (in a monitor without a per-case
+    // watchdog of its own) must not hang the check for ever. Its firing is INCONCLUSIVE — a wall
+    // clock limit on a loaded machine is no verdict — and names the last API calls of every thread.
+    if ctx.shard.is_none() && std::env::var("VERIF_PARTIAL").is_err() {
+        let limit = std::env::var("VERIF_WATCHDOG_S").ok().and_then(|s| s.parse().ok()).unwrap_or(match (ctx.tier, ctx.only_case) {
+            (_, Some(_)) => 1_800u64,
+            (Tier::Quick, _) => 2_400,
+            (Tier::Thorough, _) => 6 * 3_600,
+        });
+        let prop = property.clone();
+        std::thread::spawn(move || {
+            std::thread::sleep(std::time::Duration::from_secs(limit));
+            println!("INCONCLUSIVE property={prop} reason=the run did not finish within {limit} s (a library call that does not return, or an overloaded machine); nothing is concluded");
+            std::process::exit(2);
+        });
+    }
     let report = match mon::run(&ctx) {
         Some(r) => r,
         None => {
